@@ -62,7 +62,7 @@ def check(ctx, clause):
         elif isinstance(par, ast.Compare) and any(isinstance(op, (ast.Lt, ast.Gt, ast.LtE, ast.GtE)) for op in par.ops):
             bad = "compared by order"
         if isinstance(e, (ast.Name, ast.Attribute, ast.Call)):
-            key = "R-KEY|node-id|%s|%s" % (f.short, norm(par if bad else e)[:50])
+            key = "R-KEY|node-id|%s|%s" % (f.short, f.key(par if bad else e)[:50])
             if key in seen:
                 continue
             seen.add(key)
